@@ -39,6 +39,10 @@ CONSTRUCTS = {
     "loop": "{x} for (i = 0; i < 2; i++) {{ RxV = RxV + i; }}",
     "call": "{x} RxV = clz32(RxV);",
     "cancel": "{x} if (PvV & 1) {{ STORE_SLOT_CANCELLED(pkt, slot); }}",
+    "rxn": "{x} RxV = RxV + RxN;",
+    "pxn": "{x} if (PxN & 1) {{ RxV = 3; }}",
+    "ryyn": "{x} RxV = RxV + (RyyN >> 32);",
+    "rzn": "{x} RxV = RxV ^ RzN;",
     "pchain0": "{x} P0 = RxV = RsV;",
     "pchain1": "{x} PdV = RxV = RtV;",
     "pchain2": "{x} P0 = P1 = RsV;",
